@@ -68,6 +68,10 @@ func ruleIndexRebuildComplete(c *Ctx, rule string) {
 	a := c.A
 	f := a.IndexBuilder
 	c.R.Rule(c.R.Property+"."+rule, 1, "the rebuild is complete: entries of removed children do not survive a rebuild")
+	if f == nil {
+		c.R.Add(rule, "pkg:tree", "index-builder/exists", "-", false, "no function rebuilds the first-byte index of a node (the index field could not be identified): literal children cannot be found through an index that is kept current")
+		return
+	}
 	n := 0
 	an.AllInstrs(f, func(in ssa.Instruction) {
 		mu, ok := in.(*ssa.MapUpdate)
